@@ -53,7 +53,7 @@ CLAIMED = {
   "DESIGN.md §3 C01"),
  "C15": ("model_checking",
   "TLA+ model of the module-zip rules (ModZip.tla: per-entry verdict valid/omitted/invalid for file-list and zip checking), checked by TLC; every archive state materialised and run through CheckFiles, CheckDir, CheckZip, Create and Unzip, with hostile zip headers",
-  "ModZip.tla assigns each of 26 entries (one path per rule of the package documentation / CheckFilePath: dot-dot, absolute, backslash, trailing dot, reserved names, invalid UTF-8, cue.mod case variants, nested module, local-module file, licence, hg archival file, file-and-directory, case collision, symlink, oversize) its verdict in the context of an archive and checks that a created zip is acceptable and where the checkers may differ. Every subset of <= 3 (thorough 4) entries is checked as a file list, as a directory when representable (must agree with the file list), created + CheckZip + Unzip (round trip reproduces exactly the valid files), and written raw as a zip, also with lying declared sizes, a directory entry and a duplicate name; every Unzip runs in a scratch directory that is walked afterwards: nothing outside the target, only regular files, never more bytes than declared.",
+  "ModZip.tla assigns each of 27 entries (one path per rule of the package documentation / CheckFilePath: dot-dot, absolute, backslash, trailing dot, reserved names, invalid UTF-8, cue.mod case variants, nested module (as a directory and as a regular file named cue.mod), local-module file, licence, hg archival file, file-and-directory, case collision, symlink, oversize) its verdict in the context of an archive and checks that a created zip is acceptable and where the checkers may differ. Every subset of <= 3 (thorough 4) entries is checked as a file list, as a directory when representable (must agree with the file list), created + CheckZip + Unzip (round trip reproduces exactly the valid files), and written raw as a zip, also with lying declared sizes, a directory entry and a duplicate name; every Unzip runs in a scratch directory that is walked afterwards: nothing outside the target, only regular files, never more bytes than declared.",
   "trusted: TLC, the transcription of the documentation; for a colliding pair only 'at least one rejected' is claimed; a zip entry carrying symlink mode bits may be accepted or rejected (the documentation and the extraction behaviour differ), extraction safety is checked independently. Canary (flipped archive verdict) must be noticed.",
   "DESIGN.md §3 C15"),
  "C13": ("model_checking",
